@@ -52,18 +52,48 @@ def stored_index_vectors(prog):
     return out
 
 
-def _reindexes_holders(fn, shift_bb):
+def _reindexes_holders(fn, shift_bb, op="remove"):
     """After the shifting call in block shift_bb the function walks both places that hold indices
-    into memory_blocks and rewrites them: a values_mut()/iter_mut() over static_memory_blocks with a
-    store through the yielded reference, and a store into some State::memory_block_index."""
+    into memory_blocks and rewrites them the way the shift moved the elements.  Only `remove(i)` is
+    modelled: every element above i moves down by one, so each holder must be rewritten as
+    `if idx > i { idx -= 1 }` with the same i - a values_mut()/iter_mut() over static_memory_blocks
+    with a store through the yielded reference, and a store into some State::memory_block_index.
+    Any other reordering (swap_remove moves the LAST element into the hole, insert shifts up ...)
+    needs a different rewrite and is not accepted."""
+    if op != "remove":
+        return False
     body = fn.body
     after = body.reachable(shift_bb)
     pv = mir.Prov(body)
+    shift = body.term(shift_bb)
+    removed = mir.strip_all(pv.of_operand(shift["args"][1])) if len(shift["args"]) > 1 else None
     walks_static = False
     for b, t in body.calls():
         if b in after and mir.callee_path(t).split("::")[-1] in ("values_mut", "iter_mut") \
                 and common.receiver_field(pv, t) == "static_memory_blocks":
             walks_static = True
+    # blocks guarded by `holder > removed index`
+    guarded = set()
+    for b in after:
+        blk = body.blocks[b]
+        t = blk["t"]
+        if t["k"] != "switch":
+            continue
+        for st in blk["s"]:
+            r = st.get("r", {})
+            if st["k"] == "assign" and r.get("k") == "bin" and r["op"] == "Gt" and \
+                    mir.strip_all(pv.of_operand(r["b"])) == removed:
+                true_t = [tg for v, tg in t["ts"] if v != 0] or [t["else"]]
+                false_t = [tg for v, tg in t["ts"] if v == 0]
+                tgt = t["else"] if false_t else true_t[0]
+                guarded |= {x for x in body.reachable(tgt, avoid=set(false_t)) if body.dominates(tgt, x)}
+    dec_blocks = set()
+    for b in after:
+        for st in body.blocks[b]["s"]:
+            r = st.get("r", {})
+            if st["k"] == "assign" and r.get("k") == "bin" and r["op"] in ("Sub", "SubWithOverflow") \
+                    and (r["b"].get("k") or {}).get("int") == 1:
+                dec_blocks.add(b)
     writes_state = False
     writes_through_ref = False
     for b in after:
@@ -71,11 +101,19 @@ def _reindexes_holders(fn, shift_bb):
             if st["k"] != "assign":
                 continue
             proj = st["p"][1]
-            if any(isinstance(e, dict) and e.get("n") == "memory_block_index" for e in proj):
+            is_state = any(isinstance(e, dict) and e.get("n") == "memory_block_index" for e in proj)
+            is_ref = proj == ["*"]
+            if not (is_state or is_ref):
+                continue
+            # the stored value is the decrement computed in a guarded block
+            ok = b in guarded or any(d in guarded and b in body.reachable(d) and body.dominates(d, b) for d in dec_blocks)
+            if not ok:
+                return False
+            if is_state:
                 writes_state = True
-            if proj == ["*"]:
+            if is_ref:
                 writes_through_ref = True
-    return walks_static and writes_through_ref and writes_state
+    return walks_static and writes_through_ref and writes_state and bool(dec_blocks)
 
 
 def r1_index_stable(ctx, rule="C03.R1"):
@@ -99,9 +137,9 @@ def r1_index_stable(ctx, rule="C03.R1"):
                     continue
                 name = cp.split("::")[-1]
                 n += 1
-                if name in SHIFTING and field == "memory_blocks" and _reindexes_holders(fn, b):
+                if name in SHIFTING and field == "memory_blocks" and _reindexes_holders(fn, b, name):
                     ctx.ok(rule, "%s:%s:%s:%s" % (rule, field, fn.name, name), "%s:%s" % (fn.file, t.get("ln")),
-                           "the shift is followed by a re-indexing of both index holders "
+                           "remove(i) is followed by `if idx > i { idx -= 1 }` on both index holders "
                            "(static_memory_blocks values, State::memory_block_index)")
                     continue
                 if name in SHIFTING:
